@@ -703,4 +703,9 @@ def gorillaFind (d : Doc) (req : Req) : Outcome := gorillaFindL true d req
 /-- gorillamux after the repair of the path-item servers leak -/
 def gorillaFindFixed (d : Doc) (req : Req) : Outcome := gorillaFindL false d req
 
+/-- the shape of document on which the leak can show: in matching order, a path item with servers precedes one without -/
+def leakShape : List PathDecl → Bool
+  | [] => false
+  | p :: ps => (p.servers ≠ [] && ps.any (fun q => q.servers = [])) || leakShape ps
+
 end KinModel.Router
